@@ -11,8 +11,10 @@ from harness.worker import Stream
 
 OBLIGATIONS = [
     "PgmVerif.C17_shift_den", "PgmVerif.C17_unroll_slices", "PgmVerif.C17_unroll_wf",
+    "PgmVerif.C17_slicewise_elimination_exact",
 ]
-PARTIAL = ["the forward / backward interface recursion and its 1.5-slice junction-tree realisation are decided by the correspondence only "
+PARTIAL = ["eliminating the unrolled network slice by slice is proved exact for every T (C17_slicewise_elimination_exact, an instance of the VE "
+           "theorem of C01); that the forward / backward interface recursion with its 1.5-slice junction trees computes those sums is decided by the correspondence only "
            "(implementation vs brute-force posterior of the unrolled network of the Lean model)"]
 RULE = ("templates with 1-3 binary/ternary variables per slice, random intra-slice DAG, inter-slice edges (persistence and cross), query "
         "times 0..3, evidence in several slices incl. interface variables; non-trivial = at least one inter-slice edge and T >= 1; "
@@ -21,12 +23,13 @@ ASSUMPTIONS = ["default integer state names (the DBN classes do not carry state 
 BUDGET_QUICK = 100
 LEVEL_TEXT = ("Kernel-checked: unrolling is slice-wise renaming — the CPD of (v,t) in the unrolled network denotes the template's slice-1 CPD "
               "at the shifted assignment, unrolled factors are well-formed, and the unrolled factor list is the slice-0 CPDs followed by one "
-              "shifted copy of the slice-1 CPDs per later slice. The specification of every query is the brute-force posterior of that "
+              "shifted copy of the slice-1 CPDs per later slice; variable elimination of that network in slice order (the order the interface "
+              "algorithm follows) yields the evidence-reduced product summed over exactly the eliminated variables, for every number of slices. The specification of every query is the brute-force posterior of that "
               "unrolled network. DBNInference.query / forward_inference, get_constant_bn and initialize_initial_state are compared with it; "
               "the interface algorithm itself is not modelled (partial). Three template/evidence shapes on which the implementation is "
               "known to be wrong are recorded as known findings and classified by predicate.")
 LEVEL_NOTE = "Trusted: Lean kernel + standard axioms; model; harness."
-TECHNIQUE = "Lean 4 spec (unrolled network, slice renaming lemmas) + differential check of DBNInference against the brute-force posterior"
+TECHNIQUE = "Lean 4 proof (unrolling = slice renaming, slice-wise elimination exact) + differential check of DBNInference against the brute-force posterior"
 
 VN = ["A", "B", "C"]
 
